@@ -20,7 +20,7 @@ RULE = ("(a) every command class is constructed over comm 0..255, counts 1..125,
         "command class, argument class) tuples + distinct transaction ids seen")
 ASSUMPTIONS = ["the decoders in refcodec follow the Modbus specification (big-endian fields, CRC lo-hi, MBAP length = bytes "
                "that follow) and the AA55 framing stated in the property"]
-MUST = ["auto_detected_object_frames", "aa55_over_both_transports", "overlapping_polls_txids", "rmw_with_padded_read_answers", "named_single_reads", "dt_fallback_model_query", "tcp_connect_failures_between_requests", "tcp_session_dropped_between_requests", "contract_eval_create_modbus_rtu_request", "contract_eval_create_modbus_tcp_request",
+MUST = ["es_setter_sequences_decoded", "auto_detected_object_frames", "aa55_over_both_transports", "overlapping_polls_txids", "rmw_with_padded_read_answers", "named_single_reads", "dt_fallback_model_query", "tcp_connect_failures_between_requests", "tcp_session_dropped_between_requests", "contract_eval_create_modbus_rtu_request", "contract_eval_create_modbus_tcp_request",
         "contract_eval_create_modbus_rtu_multi_request", "contract_eval_create_modbus_tcp_multi_request",
         "txid_wraps", "negative_values", "aa55_negative_values", "wire_ops_matched", "wire_retransmissions",
         "classes_constructed", "protocol_object_commands"]
@@ -430,6 +430,42 @@ def concurrent_and_padded(spec, part):
                 f"{(sim.bad[0][1] + ' ' + sim.bad[0][2].hex()[:40]) if sim.bad else (run.stop or repr(run.error))}", case)
         else:
             part.count("aa55_over_both_transports")
+    # every ES setter sequence (each operation mode on the three firmware generations, export limit, DoD, eco groups, raw settings):
+    # all AA55 / Modbus frames the object puts on the wire must decode (header, length byte = payload length, checksum / CRC)
+    for transport_port in (8899, 502):
+        for fw in (b"02525", b"1414E", b"2225F", b"0707A"):
+            sim = models.es_sim(fw=fw)
+            done = {"calls": 0}
+
+            async def flow(loop):
+                inv = g.ES("inv0", transport_port, 0, 1, 0)
+                await inv.read_device_info()
+                for mode in await inv.get_operation_modes(True):
+                    for args in ((), (37, 61)):
+                        try:
+                            await inv.set_operation_mode(mode, *args)
+                            done["calls"] += 1
+                        except (ValueError, g.InverterError):
+                            pass
+                for call in (lambda: inv.set_grid_export_limit(1234), lambda: inv.set_ongrid_battery_dod(33), lambda: inv.get_operation_mode(),
+                             lambda: inv.write_setting("eco_mode_1_switch", 1), lambda: inv.read_settings_data(),
+                             lambda: inv.write_setting("grid_export", 1), lambda: inv.read_setting("eco_mode_2")):
+                    try:
+                        await call()
+                        done["calls"] += 1
+                    except (ValueError, g.InverterError):
+                        pass
+            run = engine.run_custom({("inv0", transport_port): sim}, flow, vtime_cap=3000, tx_cap=3000)
+            part.evaluations += 1
+            case = {"concpad": True}
+            if run.stop or (run.error is not None and not isinstance(run.error, (ValueError, g.InverterError))):
+                bad(part, "aa55", "named-reads-failed", f"ES firmware {fw.decode()} port {transport_port}: setter sweep ended with {run.stop or repr(run.error)}", case)
+            for b in sim.bad:
+                bad(part, "aa55", "undecodable-request",
+                    f"ES firmware {fw.decode()} on port {transport_port}: a frame of the setter sweep (operation modes / export limit / DoD / eco groups) is not "
+                    f"decodable: {b[1]} ({b[2].hex()[:40]})", case)
+            if not sim.bad and done["calls"] >= 6:
+                part.count("es_setter_sequences_decoded")
     for port in (8899, 502):
         for stray in (b"\x00", b"\xab\xcd", b"\xff\xff\xff"):
             sim = models.family_sim("ET")
